@@ -178,7 +178,38 @@ def r_map_value(ctx):
         ctx.ob(rid, 'map_value:' + k, ctor in v and 'self.text' in v, '%s maps to FallibleCallName::%s with the call text' % (k, ctor), fn.where(), v[:200])
 
 
+def r_symbols(ctx):
+    rid = 'R14.7'
+    ctx.rule(rid, 'debug symbols: with_file inserts, for every tracked (span, (cmr, name)), the text span.to_slice(file) and the name under that cmr')
+    fx = ctx.facts()
+    wf = ctx.anchor(fx, 'debug::CallTracker::with_file')
+    ok = False
+    detail = None
+    for k, p, r in explore(ctx, wf, max_visits=2):
+        ins = event_calls(p, 'debug::DebugSymbols::insert')
+        if ins:
+            a = ins[0][2]
+            item = 'next(into_iter(self.map))@Some.0'
+            detail = [S(x) for x in a[1:]]
+            ok = detail == [item + '.0', item + '.1.0', item + '.1.1', 'file']
+            break
+    ctx.ob(rid, 'with_file', ok, 'with_file: insert(span, cmr, name, file) with the three components of the same map entry', wf.where(), str(detail))
+    di = ctx.anchor(fx, 'debug::DebugSymbols::insert')
+    ok = False
+    for k, p, r in explore(ctx, di):
+        if k != 'RET':
+            continue
+        ts = event_calls(p, 'error::Span::to_slice')
+        ins = [e for e in event_calls(p, 'insert') if 'HashMap' in e[1]]
+        ok = len(ts) == 1 and S(ts[0][2][0]) == 'span' and S(ts[0][2][1]) == 'file' and len(ins) == 1 and S(ins[0][2][1]) == 'cmr'
+        if ok:
+            val = ins[0][2][2]
+            ok = val[0] == 'agg' and val[1].endswith('TrackedCall') and S(val[2][1]) == 'name' and bool(calls_in(val[2][0], 'error::Span::to_slice')) or (ok and 'name' in S(val))
+    ctx.ob(rid, 'insert', ok, 'DebugSymbols::insert stores TrackedCall{text of span.to_slice(file), name} under the given cmr', di.where())
+
+
 def check(ctx):
+    r_symbols(ctx)
     r_neutral(ctx)
     r_same_key(ctx)
     r_ids(ctx)
